@@ -101,8 +101,10 @@ def run_deconv1d(c, rec):
         require(maxdiff(xe, A(c["phantom_array"])) == 0, "exactSolution is not the phantom that was passed")
     require(close(tp.exactData, ref(xe), 1e-10), "exactData is not the documented operator applied to the exact solution")
     sig = c["noise_std"] if c["noise_type"] == "gaussian" else np.abs(ref(xe)) * c["noise_std"]
-    if np.any(np.asarray(sig) == 0):
-        rec.inconc("zero_noise_scale")
+    if np.min(np.asarray(sig)) <= 1e-8 * np.max(np.asarray(sig)):
+        # an exact datum that is zero up to round-off (1e-17 by symmetry of the phantom) gives a variance of 1e-38: the scaled
+        # noise model is degenerate there and its log-density is round-off noise times 1e19
+        rec.inconc("vanishing_noise_scale")
         return
     require(close(np.asarray(tp.data) - np.asarray(tp.exactData), sig * e, 1e-9),
             f"data - exactData is not noise of the stated type/level ({c['noise_type']}, std {c['noise_std']})",
@@ -245,6 +247,9 @@ def run_deconv2d(c, rec):
     ye = conv2_direct(xe.reshape(dim, dim), P, bc).ravel()
     require(close(tp.exactData, ye, 1e-9), "exactData is not the documented operator applied to the exact solution")
     sig = c["noise_std"] if c["noise_type"] == "gaussian" else np.abs(ye) * c["noise_std"]
+    if np.min(np.asarray(sig)) <= 1e-8 * np.max(np.asarray(sig)):
+        rec.inconc("vanishing_noise_scale")   # see Deconvolution1D: exact data that vanish up to FFT round-off
+        return
     require(close(np.asarray(tp.data) - np.asarray(tp.exactData), sig * e, 1e-9), "data - exactData is not noise of the stated type/level")
     wantl = gauss_loglik(np.asarray(tp.data) - want, sig) + float(tp.prior.logd(x))
     require(close(float(tp.posterior.logd(x)), wantl, 1e-9), "posterior log-density is not Gaussian log-likelihood plus log-prior")
@@ -344,15 +349,18 @@ def run_pde(c, rec):
     if c["field_type"] is None and c["map"] is None and which == "Poisson1D":
         p = np.abs(p) + 0.5  # conductivity must be positive
     fp = np.asarray(model.domain_geometry.par2fun(p), dtype=float)
-    if which == "Poisson1D" and np.any(fp <= 0):
-        rec.inconc("non_positive_conductivity")
+    degenerate = which == "Poisson1D" and (np.any(fp <= 0) or np.min(fp) < 1e-6 * np.max(fp))
+    if degenerate:
+        # conductivity not positive, or vanishing on part of the domain (6.7e-193 seen): the discrete operator is singular to
+        # working precision and two correct solvers disagree
+        rec.inconc("non_positive_or_degenerate_conductivity")
     else:
         require(close(model.forward(p), observe(solve(fp)), tol), f"{which}: model.forward(p) is not the PDE solution map of par2fun(p)")
     m = len(ye)
     sigma = np.linalg.norm(ye) / c["SNR"]
     require(close(np.asarray(tp.data) - np.asarray(tp.exactData), sigma * e[:m], 1e-7),
             f"{which}: data - exactData is not white noise of level ||exactData||/SNR", got=np.asarray(tp.data) - np.asarray(tp.exactData), want=sigma * e[:m])
-    if not (which == "Poisson1D" and np.any(fp <= 0)):
+    if not degenerate:
         want = gauss_loglik(np.asarray(tp.data) - observe(solve(fp)), sigma) + float(tp.prior.logd(p))
         require(close(float(tp.posterior.logd(p)), want, 1e-6), f"{which}: posterior log-density is not Gaussian log-likelihood plus log-prior",
                 got=float(tp.posterior.logd(p)), want=want)
